@@ -50,7 +50,7 @@ _IGNORE_SPDX_PATTERNS = [
     # SPDX files from
     # https://spdx.github.io/spdx-spec/conformance/#44-standard-data-format-requirements
     re.compile(r".*\.spdx$"),
-    re.compile(r".*\.spdx.(rdf|json|xml|ya?ml)$"),
+    re.compile(r".*\.spdx\.(rdf|json|xml|ya?ml)$"),
 ]
 
 # Combine SPDX patterns into file patterns to ease default ignore usage
